@@ -92,7 +92,8 @@ chk("C08",
     "(theorems carry it explicitly); the thermal stage is covered by the oracle.",
     "Lean 4 proof (uniqueness of the hydraulic solution) over generated kernels; start-value / damping differential search", "8/C08")
 chk("C09",
-    "Lean theorems over kernels regenerated from the current source: reversing a passive branch negates the liquid and gas "
+    "Lean theorems over kernels regenerated from the current source: the mean branch density (get_branch_real_density) does not "
+    "depend on the declared direction; reversing a passive branch negates the liquid and gas "
     "residuals (flow sign flips, pressures unchanged); n sections of a liquid pipe (length and lumped coefficient divided by n) lose "
     "exactly what the one-section pipe loses; liquid residual and Jacobian are invariant under a common pressure shift; loads "
     "aggregate per junction and a source is a negative sink; disabled = absent is C04's theorem. Oracle: every generated net vs. one "
